@@ -160,6 +160,9 @@ func init() {
 			return 480
 		},
 		Case: c12Case,
+		ExhaustiveSubspaces: func(string) []string {
+			return []string{"every mutation site enumerated by reflection over Node, Edge, Person, ExternalReference, NodeList to nesting depth 3 (per populated instance)"}
+		},
 	})
 }
 
